@@ -246,6 +246,7 @@ def decide(check, name, claim, *, logic=None, timeout_s=60, validate=2, max_path
            expect_reachable=True, decide_logic=None):
     """decide one claim; records obligations on `check` (one per relation label and path)"""
     t_start = time.time()
+    _CROSS_BUDGET["left"] = None
     rnd = random.Random(f"{seed()}:{name}")
     ctx = Ctx(name)
     ctx.inexact = False
@@ -277,6 +278,45 @@ def decide(check, name, claim, *, logic=None, timeout_s=60, validate=2, max_path
     check.paths += 0
 
 
+_CROSS_BUDGET = {"left": None}
+
+
+def _second_solver(check, solver, dt):
+    """cross-check of an unsat verdict with cvc5 on the SMT-LIB text of the very query z3 answered (a few queries per claim,
+    cheap ones only): 'agree' / 'no_answer' (unknown, time-out, parse problem) / 'disagree' (cvc5 says sat)"""
+    import os
+    if os.environ.get("VERIF_CVC5", "1") == "0":
+        return None
+    if _CROSS_BUDGET["left"] is None:
+        _CROSS_BUDGET["left"] = 2 if check.tier == "quick" else 5
+    if _CROSS_BUDGET["left"] <= 0 or dt > 5.0:
+        return None
+    _CROSS_BUDGET["left"] -= 1
+    try:
+        import cvc5
+        text = "\n".join(ln for ln in solver.to_smt2().splitlines() if not ln.startswith("(set-logic"))
+        slv = cvc5.Solver()
+        slv.setOption("tlimit-per", "10000")
+        slv.setLogic("ALL")
+        prs = cvc5.InputParser(slv)
+        prs.setStringInput(cvc5.InputLanguage.SMT_LIB_2_6, text, "query")
+        sm = prs.getSymbolManager()
+        answers = []
+        while True:
+            cmd = prs.nextCommand()
+            if cmd.isNull():
+                break
+            out = str(cmd.invoke(slv, sm)).strip()
+            if out:
+                answers.append(out)
+        verdict = answers[-1] if answers else "none"
+    except Exception as e:  # noqa: BLE001
+        verdict = f"error {type(e).__name__}"
+    res = "agree" if verdict == "unsat" else ("disagree" if verdict == "sat" else "no_answer")
+    check.cross[res] = check.cross.get(res, 0) + 1
+    return res
+
+
 def _decide_group(check, ctx, oname, cname, label, rs, pc, claim, logic, timeout_s, key, tol_default):
     bad = []
     n_el = 0
@@ -301,6 +341,10 @@ def _decide_group(check, ctx, oname, cname, label, rs, pc, claim, logic, timeout
     r = s.check()
     dt = time.perf_counter() - t
     if r == z3.unsat:
+        if _second_solver(check, s, dt) == "disagree":
+            check.obligation(oname, INCONCLUSIVE, detail="z3 answers unsat, cvc5 answers sat on the same SMT-LIB text", solver_s=dt,
+                             queries=2, paths=1, engine="symnum")
+            return
         check.obligation(oname, DISCHARGED, detail=f"unsat over {len(ctx.symbols)} symbolic inputs, {n_el} elements",
                          solver_s=dt, queries=1, paths=1, engine="symnum", sample=sample)
         return
@@ -525,7 +569,7 @@ def _worker(i):
     t = time.time()
     decide(c, name, claim, **opts)
     return dict(name=name, obligations=c.obligations, witnesses=c.witnesses, violations=c.violations, errors=c.errors,
-                validated=c.validated, samples=c.samples, wall=time.time() - t)
+                validated=c.validated, samples=c.samples, wall=time.time() - t, cross=c.cross)
 
 
 def decide_many(check, cases, jobs=None, hard_timeout_s=None, **common_opts):
@@ -560,6 +604,8 @@ def decide_many(check, cases, jobs=None, hard_timeout_s=None, **common_opts):
         check.violations += r["violations"]
         check.errors += r["errors"]
         check.validated += r["validated"]
+        for k, v in r.get("cross", {}).items():
+            check.cross[k] = check.cross.get(k, 0) + v
         for smp in r["samples"]:
             if len(check.samples) < 12:
                 check.samples.append(smp)
